@@ -1,10 +1,4 @@
 use crate::*;
-#[::entrait::entrait(TI, delegate_by = Del, ?Send)]
-pub trait T { async fn f(&self); }
-
-pub struct X;
-#[::entrait::entrait]
-impl TI for X { pub async fn f<D: Sync>(deps: &D) { ::vt::yield_once().await;  } }
-
-impl Del<Self> for crate::App { type Target = X; }
-pub fn w_output<'a>(app: &'a ::entrait::Impl<crate::App>, s: &'a str) { let fut = T::f(app); assert_output::<(), _>(&fut); let _ = ::vt::block_on(fut); }
+#[::entrait::entrait(pub T, ?Send)]
+async fn f<G: Send + 'static>(deps: &crate::ConcN, g: G) -> G { ::vt::yield_once().await; g }
+pub fn w_output<'a>(app: &'a crate::ConcN, s: &'a str) { let fut = T::f(app, 7u8); assert_output::<u8, _>(&fut); let _ = ::vt::block_on(fut); }
